@@ -85,11 +85,23 @@ def lean_sources():
 
 
 def theorems_of(path):
-    """fully qualified names of the theorems stated in a Props file (single top-level namespace)"""
+    """fully qualified names of the theorems stated in a Props file (nested namespaces are tracked)"""
     src = strip_comments(open(path, encoding='utf-8').read())
-    ns = re.search(r'^namespace\s+([\w.]+)', src, re.M)
-    prefix = ns.group(1) + '.' if ns else ''
-    return [prefix + m.group(1) for m in re.finditer(r'^\s*(?:protected\s+)?theorem\s+([\w.\']+)', src, re.M)]
+    stack = []
+    names = []
+    for line in src.split('\n'):
+        m = re.match(r'^namespace\s+([\w.]+)', line)
+        if m:
+            stack.append(m.group(1))
+            continue
+        m = re.match(r'^end\s+([\w.]+)', line)
+        if m and stack and stack[-1] == m.group(1):
+            stack.pop()
+            continue
+        m = re.match(r'^\s*(?:protected\s+)?theorem\s+([\w.\']+)', line)
+        if m:
+            names.append('.'.join(stack + [m.group(1)]))
+    return names
 
 
 def lean_phase(pid, tier, log):
